@@ -1,10 +1,11 @@
 import GrinVerif.Lemmas.PowOracleExec
+import GrinVerif.Lemmas.PowOracleRoom
 import GrinVerif.Props.C05Entry
 /-! # C05 — the executable cycle oracle IS the specification
 
 `Model/PowSpec.lean oracleCycle` (degree counting + connectivity closure, written without reference
 to the verifiers) is what the driver evaluates next to the verifier models on every line.  Here it is
-proved equal to the declarative `IsProofCycle*` for Cuckaroo, Cuckarooz, Cuckatoo and Cuckarood: "every vertex has exactly two edge ends that continue into each
+proved equal to the declarative `IsProofCycle*` for all five graph definitions: "every vertex has exactly two edge ends that continue into each
 other, and the edge set is connected" ⟺ "an ordering of all edges in which consecutive edges meet
 in a vertex and no vertex repeats".  Mathematical core: `Lemmas/PowOracle.lean`
 (`cycle_of_deg2_conn`: the orbit of slot 0 under "partner, other end" closes, never retraces an edge
@@ -13,13 +14,13 @@ and — by connectivity — covers everything; `deg2_conn_of_cycle`), executable
 
 With the `_iff` theorems of `Props/C05.lean` this closes a triangle — verifier model = specification =
 independent oracle — so the cross-check the driver performs on every line compares two functions
-that are PROVED equal (for these three variants): a DIFF "oracle disagrees" can then only come from
+that are PROVED equal: a DIFF "oracle disagrees" can then only come from
 the compiled code not being the Lean definition.
 
 Cuckarood: `oracleCycle_cuckarood` (direction bit encoded as the low bit of the vertex value, the
-Cuckatoo engine).  Cuckaroom (directed): `oracleCycle_cuckaroom_slots` proves the oracle equal to the
-slot-level form of the specification; the bridge between that form and `IsDirCycle` (an ordering of
-edges) is what remains (`oracleCycle_cuckaroom_partial`). -/
+Cuckatoo engine).  Cuckaroom (directed): `oracleCycle_cuckaroom_slots` (slot parity as the low bit)
+and `slotCycle_iff_dirCycle` (Lemmas/PowOracleRoom.lean) give `oracleCycle_cuckaroom`.  All five:
+`oracleAccept_iff_all`, `verifier_eq_oracle_all`. -/
 namespace GV.Props.C05Oracle
 open GV GV.Pow GV.Props.C05
 
@@ -288,13 +289,6 @@ theorem verifier_eq_oracle (v : Variant) (hv : v ≠ .cuckaroom)
 
 /-! ### Cuckaroom: the slot parity (`from` / `to`) as the low bit of the vertex value -/
 
-/-- a Cuckaroom edge set as an undirected cycle on slots in which the two edge ends meeting in a
-vertex are one `to` end (odd slot) and one `from` end (even slot) -/
-def IsSlotCycleCuckaroom (es : List (Nat × Nat)) : Prop :=
-  ∃ c, IsCycle es.length
-    (fun a b => slotNode es a = slotNode es b ∧ a % 2 ≠ b % 2)
-    (fun a b => slotNode es a = slotNode es b) c
-
 /-- **Cuckaroom: the executable oracle decides "one simple cycle through all edges in which every
 vertex has one incoming and one outgoing edge end"** (the slot-level reading of a directed cycle). -/
 theorem oracleCycle_cuckaroom_slots (es : List (Nat × Nat)) (dirs : List Nat) (hL : 0 < es.length) :
@@ -346,24 +340,41 @@ theorem oracleCycle_cuckaroom_slots (es : List (Nat × Nat)) (dirs : List Nat) (
       omega)⟩
     exact ⟨hL, this.1, this.2⟩
 
-/- **`oracleCycle = IsProofCycleCuckaroom` — full statement, not proved:**
+/-- **Cuckaroom: the executable oracle decides `IsProofCycleCuckaroom`** (`oracleCycle_cuckaroom_slots`
+with `Lemmas/PowOracleRoom.lean slotCycle_iff_dirCycle`: the slot cycle entered through the `to` ends
+is the directed cycle, entered through the `from` ends its reversal). -/
+theorem oracleCycle_cuckaroom (es : List (Nat × Nat)) (dirs : List Nat) (hL : 0 < es.length) :
+    oracleCycle .cuckaroom es dirs = true ↔ IsProofCycleCuckaroom es := by
+  rw [oracleCycle_cuckaroom_slots es dirs hL, slotCycle_iff_dirCycle es hL]
 
-    theorem oracleCycle_cuckaroom (es : List (Nat × Nat)) (dirs : List Nat) (hL : 0 < es.length) :
-        oracleCycle .cuckaroom es dirs = true ↔ IsProofCycleCuckaroom es
+/-- **The whole acceptance condition of the executable oracle is the property's rule**, for all five
+graph definitions: exactly `ps` nonces, within the edge mask, strictly ascending, and the selected
+edges form one simple cycle through all of them. -/
+theorem oracleAccept_iff_all (v : Variant)
+    (ps mask : Nat) (hps : 0 < ps) (ep : Nat → Nat × Nat) (ns : List Nat) :
+    oracleAccept v ps mask ep ns = true ↔
+      (ns.length = ps ∧ (∀ x ∈ ns, x ≤ mask) ∧ Ascending ns ∧ IsProofCycleOf v ep ns) := by
+  by_cases hv : v = .cuckaroom
+  · subst hv
+    unfold oracleAccept
+    simp only [Bool.and_eq_true, beq_iff_eq, List.all_eq_true, decide_eq_true_iff, ascendingb_iff]
+    constructor
+    · rintro ⟨⟨⟨h1, h2⟩, h3⟩, h4⟩
+      have hL : 0 < (ns.map ep).length := by rw [List.length_map, h1]; exact hps
+      exact ⟨h1, h2, h3, (oracleCycle_cuckaroom _ _ hL).mp h4⟩
+    · rintro ⟨h1, h2, h3, h4⟩
+      have hL : 0 < (ns.map ep).length := by rw [List.length_map, h1]; exact hps
+      exact ⟨⟨⟨h1, h2⟩, h3⟩, (oracleCycle_cuckaroom _ _ hL).mpr h4⟩
+  · exact oracleAccept_iff v hv ps mask hps ep ns
 
-Proved: `oracleCycle_cuckaroom_slots` — the oracle decides the SLOT-level statement
-`IsSlotCycleCuckaroom` exactly.  Missing: `IsSlotCycleCuckaroom es ↔ IsProofCycleCuckaroom es`, a
-statement about the two declarative forms only (no executable code): in a slot cycle all entry slots
-have one parity (the exit slot has the other parity than the entry slot, and the next entry slot is
-the other end of the exit slot's edge); entries all odd: the edges `c[t] / 2` in this order are the
-directed cycle (`to` of each = `from` of the next); entries all even: in the reverse order;
-conversely `c[t] := 2·d[t] + 1`.  What is left is the index arithmetic of the reversal modulo `L`. -/
-
-/-- the direction that needs no reversal: a directed cycle is a slot cycle (entered through the `to`
-ends), hence **the oracle never refuses a Cuckaroom proof cycle** -/
-theorem oracleCycle_cuckaroom_partial (es : List (Nat × Nat)) (dirs : List Nat) (hL : 0 < es.length)
-    (h : IsSlotCycleCuckaroom es) : oracleCycle .cuckaroom es dirs = true :=
-  (oracleCycle_cuckaroom_slots es dirs hL).mpr h
+/-- **verifier model = independent oracle, for all five variants** and the parameters `verify_size`
+builds: the two functions the driver compares on every line are equal. -/
+theorem verifier_eq_oracle_all (v : Variant)
+    (P : Params) (ep : Nat → Nat × Nat) (ns : List Nat)
+    (hps : 0 < P.proofsize) (hctx : P.ctxProofSize = P.proofsize) (hbk : ∀ x, P.bk x % 2 = x % 2) :
+    (verifyOf v P ep ns = .ok ()) ↔ oracleAccept v P.proofsize P.edgeMask ep ns = true := by
+  rw [GV.Props.C05Entry.verifyOf_iff v P ep ns hps hctx hbk, oracleAccept_iff_all v _ _ hps]
+  exact ⟨fun ⟨a, b, c, d⟩ => ⟨a, c, b, d⟩, fun ⟨a, b, c, d⟩ => ⟨a, c, b, d⟩⟩
 
 /-! ### non-vacuity -/
 
